@@ -311,7 +311,7 @@ def _gen_multi(seed, rng):
             names.append(f"s{j}/{g}")
             files.append({"path": f"s{j}/{g}", "content": "content of " + g + "\n"})
     steps = []
-    clocks = _clocks(rng, 12)
+    clocks = _clocks(rng, 24)
     flavour = rng.pick(["holders", "holders", "case-variants", "merge-tie", "plain"])
     ci = 0
     if flavour != "plain":
